@@ -534,6 +534,12 @@ Proof. reflexivity. Qed.
 Lemma guard_kept_when_falsy_true : guard_kept_when_falsy = true.
 Proof. reflexivity. Qed.
 
+(* exec_match takes the subject as a value read before anything of the compiled form runs, and cm_result_var
+   is the form's own fresh variable; that is the emitted code only if the variable is not handed to
+   Result.rename (7b4f7e5: otherwise (setv x (match x ...)) presets x = None before the subject is read) *)
+Lemma result_var_not_renamable : result_var_renamable = false.
+Proof. reflexivity. Qed.
+
 Lemma supported_all mangle : forall h, supported mangle h = true.
 Proof.
   assert (K : forall kws, forallb (kwd_ok mangle) kws = true).
